@@ -25,6 +25,7 @@ sys.path.insert(0, os.path.join(os.path.dirname(os.path.abspath(__file__)), ".."
 import recovery_common as rc  # noqa: E402
 
 REQUIRED = [
+    "config:UseSingleFlight", "overlap:forward-history-parked", "overlap:singleflight,several-retained",
     "via:cmd", "via:connect",
     "state:no-stream(meta-expired-or-never)", "state:empty-top0", "state:cleared-top-kept(expired-or-removed)",
     "state:trimmed", "state:full", "req:no-recovery", "req:auto", "req:client-recover",
@@ -45,6 +46,9 @@ def run(ctx):
         "single node, MemoryBroker, one channel per scenario; the only publications concurrent with a subscribe are "
         "those of the cache-empty handler (they reach the subscriber's buffer synchronously)",
         "operations happen at x.5 s of the virtual clock, sweepers at whole seconds",
+        "part of the scenarios run with Config.UseSingleFlight and overlap the subscribe with an application-level "
+        "forward Node.History parked inside the (wrapped) broker; the model ignores it: an unrelated read must not "
+        "change what cache recovery finds",
         "statement read as 'newest visible publication' (see module docstring)",
     ]
     rc.run_check(ctx, "C03", "cache", {"cache": rc.c03_oracle}, {"cache": rc.c03_branch},
